@@ -326,7 +326,7 @@ Definition tf_md_witness : tf_st :=
      tf_idx := [(3, 5)]; tf_bankmd := [(5, 77)] |}.
 Definition tf_md_funs : funs :=
   {| f_hash := fun _ => 0; f_code_empty := fun _ => false; f_ftid := fun _ _ => 0;
-     f_tfparse := fun _ => (3, 1); f_tfdefmd := fun _ => 42; f_dgsan := fun x => x |}.
+     f_tfparse := fun _ => (3, 1); f_tfdefmd := fun _ => 42; f_dgsan := fun x => x; f_pairjson := fun p => p |}.
 
 Lemma tf_md_witness_wf : wf_tf tf_md_funs tf_md_witness.
 Proof.
@@ -586,8 +586,31 @@ Record wf_app (F : funs) (env : list authacc) (s : app_st) : Prop := {
   wa_tf : wf_tf F (a_tf s);
   wa_devgas : wf_devgas F (a_devgas s);
   wa_evm : wf_evm F (a_evm s);
-  wa_env : env_sorted env
+  wa_env : env_sorted env;
+  (* the JSON codec of asset.Pair is the identity on every pair the oracle stores *)
+  wa_json : forall p, In p (oracle_pair_keys (a_oracle s)) -> f_pairjson F p = p
 }.
+
+Lemma map_fixed : forall (f : nat -> nat) l, (forall x, In x l -> f x = x) -> map f l = l.
+Proof.
+  intros f. induction l as [|x r IH]; intros H; [reflexivity|].
+  cbn [map]. rewrite (H x (or_introl eq_refl)), IH; [reflexivity|]. intros y Hy. apply H. right. exact Hy.
+Qed.
+
+Lemma json_oracle_gen_id : forall F s, (forall p, In p (oracle_pair_keys s) -> f_pairjson F p = p) ->
+  json_oracle_gen F (export_oracle s) = export_oracle s.
+Proof.
+  intros F s H. unfold oracle_pair_keys in H. unfold json_oracle_gen, export_oracle.
+  cbn [og_params og_whitelist og_rates og_feeders og_miss og_prevotes og_votes og_pairs og_rewards].
+  rewrite (map_fixed (f_pairjson F) (o_whitelist s)) by (intros x Hx; apply H; apply in_or_app; left; exact Hx).
+  rewrite (map_fixed (f_pairjson F) (o_pairs s)) by (intros x Hx; apply H; apply in_or_app; right; apply in_or_app; right; exact Hx).
+  f_equal. rewrite map_map. cbn [fst snd].
+  assert (G : forall l : smap rate, (forall x, In x (map fst l) -> f_pairjson F x = x) ->
+              map (fun x => (f_pairjson F (fst x), r_rate (snd x))) l = map (fun kv => (fst kv, r_rate (snd kv))) l).
+  { induction l as [|[k v] r IH]; intros Hl; [reflexivity|]. cbn [map fst snd].
+    rewrite (Hl k (or_introl eq_refl)), IH; [reflexivity|]. intros y Hy. apply Hl. right. exact Hy. }
+  apply G. intros x Hx. apply H. apply in_or_app. right. apply in_or_app. left. exact Hx.
+Qed.
 
 (** Main theorem: from a well-formed state, the export can be imported into a fresh chain (at any
     height [h] and time [t]); exporting that chain again gives the first export with the epoch start
@@ -601,7 +624,7 @@ Theorem app_roundtrip : forall c F env h t s, wf_app F env s ->
     export_app env s' = Some (rebase_gen h g) /\
     state_equiv (negb (match c_rid c with RidLastPlus1 => true | _ => false end)) (negb (c_tf_keeps_bank_md c)) env h t s s'.
 Proof.
-  intros c F env h t s [Wsu We Wo Wt Wd Wv Wenv].
+  intros c F env h t s [Wsu We Wo Wt Wd Wv Wenv Wjson].
   destruct (a_sudo s) as [su|] eqn:Esu; [|congruence].
   destruct (tf_roundtrip c F _ Wt) as (gt & Hgt & tf' & Htf' & Hgt' & Htp & Htd & Htc & Hta & Hti & Htm).
   destruct (epochs_roundtrip h t _ We) as (e' & He' & Hee & Heq).
@@ -612,7 +635,7 @@ Proof.
   - unfold export_app. rewrite Esu, Hgt. cbn [export_sudo]. reflexivity.
   - split.
     + unfold init_app. cbn [g_epochs g_tf g_devgas g_evm g_sudo g_infl g_oracle].
-      rewrite He', Htf', (devgas_roundtrip F _ Wd), Hev'. reflexivity.
+      rewrite He', Htf', (devgas_roundtrip F _ Wd), Hev', (json_oracle_gen_id F _ Wjson). reflexivity.
     + split.
       * unfold export_app. cbn [a_sudo a_tf a_infl a_epochs a_oracle a_devgas a_evm init_sudo export_sudo].
         rewrite Hgt'. unfold rebase_gen. cbn [g_sudo g_infl g_epochs g_oracle g_tf g_devgas g_evm].
@@ -676,6 +699,8 @@ Proof.
     + intros a m Hin. match goal with H : forallb _ (ev_storage _) = true |- _ => rewrite forallb_forall in H; specialize (H _ Hin); cbn in H end.
       andb_split. split; [assumption|]. destruct m; [discriminate | discriminate].
   - assumption.
+  - intros p Hin. match goal with H : pairs_json_fixedb _ _ = true |- _ =>
+      unfold pairs_json_fixedb in H; rewrite forallb_forall in H; specialize (H _ Hin); apply Nat.eqb_eq in H; exact H end.
 Qed.
 
 (* ================================================================== non-vacuity *)
@@ -688,7 +713,8 @@ Definition ex_funs : funs :=
      f_ftid := fun e d => e + d;
      f_tfparse := fun d => (d + 1, d + 2);
      f_tfdefmd := fun d => 500 + d;
-     f_dgsan := fun p => p |}.
+     f_dgsan := fun p => p;
+     f_pairjson := fun p => p |}.
 Definition ex_env : list authacc :=
   [ {| aa_addr := 1; aa_eth := true; aa_hash := 0 |};        (* EOA *)
     {| aa_addr := 3; aa_eth := true; aa_hash := 1 |};        (* contract with storage *)
@@ -721,7 +747,7 @@ Proof. apply wf_appb_sound. vm_compute. reflexivity. Qed.
 
 (** … and on it the round trip really drops / re-bases what the exception list says (and nothing else). *)
 Example app_roundtrip_nonvacuous :
-  let c := {| c_rid := RidLastPlus1; c_tf_keeps_bank_md := true |} in
+  let c := {| c_rid := RidLastPlus1; c_tf_keeps_bank_md := true; c_pair_json_id := true |} in
   exists g s', export_app ex_env ex_state = Some g /\
     init_app c ex_funs ex_env (tf_bankmd (a_tf ex_state)) 100%Z 2000%Z g = Some s' /\
     s' <> ex_state /\
@@ -747,13 +773,15 @@ Lemma state_equiv_strict : forall c F env h t s, cfg_ok c = true -> wf_app F env
                state_equiv false false env h t s s'.
 Proof.
   intros c F env h t s Hc W. destruct (app_roundtrip c F env h t s W) as (g & s' & H1 & H2 & _ & H4).
-  exists g, s'. unfold cfg_ok in Hc. destruct (c_rid c); try discriminate. rewrite Hc in H4. cbn in H4.
+  exists g, s'. unfold cfg_ok in Hc. destruct (c_rid c); try discriminate.
+  apply andb_true_iff in Hc. destruct Hc as [Hc _]. rewrite Hc in H4. cbn in H4.
   split; [exact H1|]. split; [exact H2|]. exact H4.
 Qed.
 
 Lemma exceptions_of_ok_cfg : forall c, cfg_ok c = true -> exceptions c = tolerated.
 Proof.
-  intros c Hc. unfold cfg_ok in Hc. unfold exceptions. destruct (c_rid c); try discriminate. rewrite Hc. reflexivity.
+  intros c Hc. unfold cfg_ok in Hc. unfold exceptions. destruct (c_rid c); try discriminate.
+  apply andb_true_iff in Hc. destruct Hc as [Hc _]. rewrite Hc. reflexivity.
 Qed.
 
 (* ================================================================== the imported state is well-formed again *)
@@ -767,7 +795,7 @@ Qed.
 Lemma wf_after_import : forall F env h t s s',
   wf_app F env s -> state_equiv false false env h t s s' -> wf_app F env s'.
 Proof.
-  intros F env h t s s' [Wsu [Hes Hek Hest] Wo Wt Wd Wv Wenv] (Esu & Einf & Eep & Eo & Etf & Edg & Eev).
+  intros F env h t s s' [Wsu [Hes Hek Hest] Wo Wt Wd Wv Wenv Wjson] (Esu & Einf & Eep & Eo & Etf & Edg & Eev).
   constructor.
   - rewrite Esu. exact Wsu.
   - unfold epochs_equiv in Eep. rewrite Eep. constructor.
@@ -790,6 +818,9 @@ Proof.
     + rewrite E6. apply sortedb_filter. exact Hs.
     + intros a m Hin. rewrite E6 in Hin. apply filter_In in Hin. exact (Hsl _ _ (proj1 Hin)).
   - exact Wenv.
+  - destruct Eo as (_ & E2 & _ & _ & _ & _ & E7 & _ & E9 & _).
+    intros p Hin. apply Wjson. unfold oracle_pair_keys in *. rewrite E2, E7, E9 in Hin.
+    rewrite map_map in Hin. exact Hin.
 Qed.
 
 (** hence the round trip can be iterated: importing the second export (at any later height) gives a
@@ -803,10 +834,21 @@ Proof.
   intros c F env h t h2 t2 s Hc W.
   destruct (app_roundtrip c F env h t s W) as (g & s' & H1 & H2 & H3 & H4).
   assert (H4' : state_equiv false false env h t s s').
-  { unfold cfg_ok in Hc. destruct (c_rid c); try discriminate. rewrite Hc in H4. exact H4. }
+  { unfold cfg_ok in Hc. destruct (c_rid c); try discriminate.
+    apply andb_true_iff in Hc. destruct Hc as [Hc _]. rewrite Hc in H4. exact H4. }
   pose proof (wf_after_import F env h t s s' W H4') as W'.
   destruct (app_roundtrip c F env h2 t2 s' W') as (g2 & s'' & K1 & K2 & K3 & _).
   rewrite H3 in K1. inversion K1; subst g2.
   exists g, s', s'', (rebase_gen h2 (rebase_gen h g)). repeat (split; [assumption|]).
   unfold gen_equiv, rebase_gen. cbn. f_equal. rewrite map_map. reflexivity.
 Qed.
+
+(** If the JSON codec of pairs is not the identity on a stored pair (e.g. it lower-cases), the pair comes
+    back under another name: the second export differs and the original pair is no longer whitelisted. *)
+Definition pair_json_witness : oracle_st :=
+  {| o_params := 0; o_whitelist := [5]; o_rates := [(5, {| r_rate := 9; r_created := 1%Z; r_ts := 1%Z |})]; o_feeders := [];
+     o_miss := []; o_prevotes := []; o_votes := []; o_pairs := [5]; o_rewards := []; o_rewards_id := None; o_snaps := [] |}.
+Lemma pair_json_codec_refuted : forall c F h t, f_pairjson F 5 = 4 ->
+  let s' := init_oracle c h t (json_oracle_gen F (export_oracle pair_json_witness)) in
+  o_pairs s' = [4] /\ map fst (o_rates s') = [4] /\ og_pairs (export_oracle s') <> og_pairs (export_oracle pair_json_witness).
+Proof. intros c F h t H. cbn. rewrite H. cbn. repeat split. discriminate. Qed.
